@@ -481,6 +481,43 @@ theorem merge_dups_cross (sel : List (Bool × Nat)) (w : Nat)
     (mergeTables (some (collect (phaseVals false sel)).1) (collect (phaseVals true sel)).1).get w = 2 := by
   rw [merge_counts, collect_get, ← count_phases, h1, h2]
 
+/-! ### what `_clear` keeps of the elements that stay in the tree (pruned placeholders, open ancestors) -/
+
+/-- what an element itself carries (the id stands for its attributes and text: the correspondence run marks every
+    element with an attribute holding its id and compares attributes, text and tail of every element left in the tree) -/
+def framePayload (f : Frame) : Nat × String × List (String × String) := (f.id, f.tag, f.decls)
+
+theorem stub_keeps_payload (t : Tree) :
+    (stub t).id = t.id ∧ (stub t).tag = t.tag ∧ (stub t).decls = t.decls ∧ (stub t).cs = [] := by
+  cases t; exact ⟨rfl, rfl, rfl, rfl⟩
+
+theorem map_payload_clearKids (fs : List Frame) : (fs.map clearKids).map framePayload = fs.map framePayload := by
+  induction fs with
+  | nil => rfl
+  | cons f fs ih => simp only [List.map_cons, ih]; rfl
+
+theorem clear_keeps_payload (thin skipRoot : Bool) (b : TB) (h : Frame) (fs : List Frame) (e : Tree)
+    (hb : b.frames = h :: fs) (he : h.kids.getLast? = some e) :
+    ∃ h' fs', (b.clear thin skipRoot).frames = h' :: fs' ∧ framePayload h' = framePayload h ∧
+      h'.kids.getLast? = some (stub e) ∧ fs'.map framePayload = fs.map framePayload ∧
+      (thin = false → h'.kids.dropLast = h.kids.dropLast ∧ fs' = fs) := by
+  unfold TB.clear
+  rw [hb]
+  simp only [he]
+  split
+  · rename_i hc
+    refine ⟨_, _, rfl, rfl, by simp, ?_, ?_⟩
+    · cases skipRoot
+      · simp only [Bool.false_eq_true, if_false]; exact map_payload_clearKids fs
+      · simp only [if_true, List.map_append, map_payload_clearKids]
+        rw [← List.map_append]
+        congr 1
+        rw [List.dropLast_eq_take]
+        exact List.take_append_drop _ _
+    · intro ht; subst ht; simp at hc
+  · refine ⟨_, _, rfl, rfl, by simp, rfl, ?_⟩
+    intro _; simp
+
 /-! ### decoded data above the cut -/
 
 variable {A : Type}
